@@ -200,9 +200,10 @@ TVWitness ==
       IN Step(Fail("WitnessInvalid(harness)", ok), Ev.o, s, memo, [KeepT(Ev.o) EXCEPT ![Ev.o] = t])
 
 \* status compatibility between two solves of the same LP content
+\* (an LP that is primal AND dual infeasible may be reported as INFEASIBLE, UNBOUNDED or INForUNBD: none of C02's clauses
+\*  distinguishes them; OPTIMAL is compatible with OPTIMAL only)
 Compat(a, b) == \/ a = b
-                \/ a = ST_INFORUNBD /\ b \in {ST_UNBOUNDED, ST_INFEASIBLE}
-                \/ b = ST_INFORUNBD /\ a \in {ST_UNBOUNDED, ST_INFEASIBLE}
+                \/ {a, b} \subseteq {ST_UNBOUNDED, ST_INFEASIBLE, ST_INFORUNBD}
 MemoKey(s) == s.rlp
 TVOptimize ==
    /\ Ev.a = "optimize" /\ Ev.o \in Live
@@ -213,7 +214,7 @@ TVOptimize ==
           k == MemoKey(s)
           conclusive == r.status \in {ST_OPTIMAL, ST_UNBOUNDED, ST_INFEASIBLE, ST_INFORUNBD}
           gap == IF r.status = ST_OPTIMAL /\ r.hasSol /\ base = {} THEN GapBound(s.rlp, r.sol, s.ftol, s.otol) ELSE "0"
-          mfails == IF Ev.limited \/ k \notin DOMAIN memo.v \/ ~conclusive THEN {}
+          mfails == IF Ev.limited \/ k \notin DOMAIN memo.v \/ ~conclusive \/ ~Ev.wellScaled THEN {}
                     ELSE Fail("SameStatusAsOtherSolveOfSameLP", Compat(memo.v[k].status, r.status))
                          \cup Fail("SameValueAsOtherSolveOfSameLP",
                                    memo.v[k].status = ST_OPTIMAL /\ r.status = ST_OPTIMAL /\ r.hasSol =>
